@@ -341,4 +341,24 @@ theorem map2ToCurveG2_eq {u0 u1 : Fq2} {P0 P1 : Jac Fq2} (hP0 : osswuG2 u0 = som
 
 end G2
 
+/-! ## no 2-torsion on the twist (used by C05: compressed encodings of G2 round-trip) -/
+
+theorem neg_g2b_pow_third_fast :
+    fastPow (-g2Codec.b) ((Gen.q * Gen.q - 1) / 3) ≠ 1 := by decide +kernel
+
+/-- `E₂ : y² = x³ + 4(1+u)` has no point of order 2 over `Fq2`: `−4(1+u)` is not a cube -/
+theorem g2_no_two_torsion (x : Fq2) : x * x * x + g2Codec.b ≠ 0 := by
+  intro h
+  have h3 : x ^ 3 = -g2Codec.b := by linear_combination h
+  have hx : x ≠ 0 := by
+    rintro rfl
+    apply g2Codec_b_ne_zero
+    have : -g2Codec.b = 0 := by rw [← h3]; simp
+    exact neg_eq_zero.mp this
+  apply neg_g2b_pow_third_fast
+  rw [fastPow_eq _ _ (lt_of_le_of_lt (Nat.div_le_self _ _) Fq2.q_sq_sub_one_lt)]
+  obtain ⟨k, hk⟩ := Fq2.three_dvd
+  rw [← h3, ← pow_mul, hk, Nat.mul_div_cancel_left _ (by norm_num), ← hk]
+  exact Fq2.pow_card_sub_one x hx
+
 end PP
